@@ -36,6 +36,63 @@ struct Free {
     /// what must be written for it (None = only the loose truncation rule applies)
     expected: Vec<u8>,
     special: bool,
+    /// the line is wider than the maximum line length: `expected` holds the visible text that
+    /// must be shown (prefix + truncation mark) instead of the bytes
+    trunc: bool,
+}
+
+/// A coloured line built around the maximum line length `mll`: dense SGR colouring (and OSC 8
+/// links) makes it longer than `mll` in bytes.  `over` = false: its visible width stays within
+/// `mll`, so it must pass unchanged ("truncation beyond the maximum line length" does not apply);
+/// `over` = true: it is wider, and must be shown as its first mll-1 columns plus the mark.
+fn gen_long_line(t: &mut Tape, sentinel: usize, mll: usize, over: bool) -> Free {
+    const ON: &[&str] = &["\x1b[31m", "\x1b[1;32m", "\x1b[38;5;208m", "\x1b[48;2;10;20;30m", "\x1b[7m", "\x1b[3;4;9m", "\x1b[33;44m"];
+    const OFF: &[&str] = &["\x1b[m", "\x1b[0m"];
+    let target = if over { mll + 1 + t.below(20) } else { mll.saturating_sub(t.below(3)) };
+    let mut vis = format!("⟦{}⟧", sentinel);
+    let mut s: Vec<u8> = Vec::new();
+    s.extend_from_slice(t.ps(ON).as_bytes());
+    s.extend_from_slice(vis.as_bytes());
+    s.extend_from_slice(t.ps(OFF).as_bytes());
+    const WORDS: &[&str] = &["a", "bc", "def", "let", "x1", "==", "fn()", "0x1f", ";", "ok"];
+    let mut width = vis.chars().count();
+    while width < target {
+        let room = target - width;
+        if room == 1 {
+            // a single column left: one more coloured character, no separating blank
+            s.extend_from_slice(t.ps(ON).as_bytes());
+            s.push(b'z');
+            s.extend_from_slice(t.ps(OFF).as_bytes());
+            vis.push('z');
+            width += 1;
+            break;
+        }
+        let mut w = t.ps(WORDS).to_string();
+        if w.len() + 1 > room {
+            w.truncate(room - 1);
+        }
+        let link = t.chance(1, 6);
+        s.push(b' ');
+        if link {
+            s.extend_from_slice(b"\x1b]8;;https://example.com/a\x1b\\");
+        }
+        s.extend_from_slice(t.ps(ON).as_bytes());
+        s.extend_from_slice(w.as_bytes());
+        s.extend_from_slice(t.ps(OFF).as_bytes());
+        if link {
+            s.extend_from_slice(b"\x1b]8;;\x1b\\");
+        }
+        vis.push(' ');
+        vis.push_str(&w);
+        width += 1 + w.len();
+    }
+    debug_assert_eq!(width, vis.chars().count());
+    if over {
+        let shown: String = vis.chars().take(mll - 1).collect();
+        Free { bytes: s, expected: format!("{}→", shown).into_bytes(), special: true, trunc: true }
+    } else {
+        Free { bytes: s.clone(), expected: s, special: true, trunc: false }
+    }
 }
 
 fn gen_free_line(t: &mut Tape, sentinel: usize, mll: usize) -> Free {
@@ -135,9 +192,9 @@ fn gen_free_line(t: &mut Tape, sentinel: usize, mll: usize) -> Free {
     // exercised by the dedicated long-line class below)
     if mll > 0 && (s.len() > mll || expected.len() > mll) {
         let plain = format!("⟦{}⟧ short", sentinel).into_bytes();
-        return Free { bytes: plain.clone(), expected: plain, special: false };
+        return Free { bytes: plain.clone(), expected: plain, special: false, trunc: false };
     }
-    Free { bytes: s, expected, special }
+    Free { bytes: s, expected, special, trunc: false }
 }
 
 fn gen_cfg(t: &mut Tape) -> Cfg {
@@ -217,19 +274,27 @@ impl Prop for C04 {
             C(Vec<InLine>),
         }
         let mut groups: Vec<G> = Vec::new();
+        // (side-by-side raises the effective limit so that wrapped rows fit)
+        let sbs = cfg.has("side-by-side") || cfg.get("features").map(|f| f.contains("side-by-side")).unwrap_or(false);
         let mut free_block = |t: &mut Tape, sentinel: &mut usize| {
             let n = t.range(1, 6);
             let mut v = Vec::new();
             for _ in 0..n {
                 *sentinel += 1;
                 if t.chance(1, 10) {
-                    v.push(Free { bytes: Vec::new(), expected: Vec::new(), special: false }); // blank line
+                    v.push(Free { bytes: Vec::new(), expected: Vec::new(), special: false, trunc: false }); // blank line
+                } else if mll >= 30 && t.chance(1, if mll > 500 { 40 } else { 7 }) {
+                    // built around the maximum line length; wider-than-the-limit lines only in
+                    // the text-only mode, where the whole output is compared line by line
+                    let over = mode == 0 && t.coin() && !sbs;
+                    v.push(gen_long_line(t, *sentinel, mll, over));
                 } else {
                     v.push(gen_free_line(t, *sentinel, mll));
                 }
             }
             G::F(v)
         };
+
         let mut go = GenOpts::default_full();
         go.max_hunks = 2;
         go.max_lines = 5;
@@ -289,6 +354,12 @@ impl Prop for C04 {
                 G::C(ls) => input.extend_from_slice(&lines_to_bytes(ls, true)),
             }
         }
+        for g in &groups {
+            if let G::F(v) = g {
+                ctx.class_if(v.iter().any(|f| f.trunc), "line-wider-than-max-line-length");
+                ctx.class_if(v.iter().any(|f| !f.trunc && mll > 0 && f.bytes.len() > mll), "line-longer-in-bytes-only");
+            }
+        }
         ctx.class(match mode {
             0 => "text-only",
             1 => "text-before-constructs",
@@ -315,7 +386,28 @@ impl Prop for C04 {
                     want.push(b'\n');
                 }
             }
-            if out != want {
+            let has_trunc = matches!(&groups[0], G::F(v) if v.iter().any(|f| f.trunc));
+            if has_trunc {
+                // line by line: a line wider than the limit must show its first mll-1 columns and
+                // the truncation mark (visible text, decoded by the terminal model); all others
+                // must be byte-identical
+                let a: Vec<&[u8]> = out.split(|b| *b == b'\n').collect();
+                if let G::F(v) = &groups[0] {
+                    if a.len() != v.len() + 1 {
+                        return fail("not-identical", format!("text-only stream of {} lines gives {} output lines", v.len(), a.len() - 1));
+                    }
+                    for (i, f) in v.iter().enumerate() {
+                        if f.trunc {
+                            let shown = term::visible_text(a[i]);
+                            if shown.as_bytes() != &f.expected[..] {
+                                return fail("truncation", format!("line {} is wider than max-line-length={}: expected its first {} columns and the truncation mark, `{}`; shown `{}`", i + 1, mll, mll - 1, String::from_utf8_lossy(&f.expected), shown));
+                            }
+                        } else if a[i] != &f.expected[..] {
+                            return fail("not-identical", format!("text-only stream: output differs from input at line {}: wrote `{}`, expected `{}`", i + 1, exec::printable(a[i]), exec::printable(&f.expected)));
+                        }
+                    }
+                }
+            } else if out != want {
                 let a: Vec<&[u8]> = out.split(|b| *b == b'\n').collect();
                 let b: Vec<&[u8]> = want.split(|b| *b == b'\n').collect();
                 let i = a.iter().zip(b.iter()).position(|(x, y)| x != y).unwrap_or(a.len().min(b.len()));
